@@ -4,6 +4,7 @@ from __future__ import annotations
 import itertools
 from functools import lru_cache
 
+from ..explore import bfs as BFS
 from ..model import refgraph as RG
 from ..snapshot import diff, norm, snap
 from ..universe import graphs as U
@@ -53,8 +54,15 @@ def items(tier, seed):
     return [{"lo": lo, "hi": min(n, lo + 4), "tier": tier} for lo in range(0, n, 4)]
 
 
+def _drop_empty(m):
+    m.achg = {c: kd for c, kd in m.achg.items() if kd}
+    m.bchg = {c: kd for c, kd in m.bchg.items() if kd}
+    return m
+
+
 CONTAINERS = {
     "list": lambda s: list(s),
+    "list-reversed": lambda s: list(reversed(s)),
     "tuple": lambda s: tuple(s),
     "set": lambda s: set(s),
     "frozenset": lambda s: frozenset(s),
@@ -72,6 +80,7 @@ def run_item(item):
         n = len(ids)
         g = U.build(m)
         base = norm(snap(g))
+        universe = ids + [max(ids) + 13]
 
         def V(clause, what, detail=None, inp=""):
             out["viol"].append({"sig": f"C17/{E.SHORT[m.kind]}/{clause}", "input": f"{U.key(m)}|{inp}",
@@ -95,6 +104,12 @@ def run_item(item):
                     if d:
                         V(f"subgraph/{cname}/wrong:" + "+".join(d), f"subgraph({cname} {S}) differs from the induced subgraph in {d}",
                           {x: {"real": got.get(x), "model": exp.get(x)} for x in d}, inp=str(S))
+                    elif cname in ("list", "list-reversed", "set"):
+                        # all public views of the subgraph (matrix, components, neighbour queries, getters) are coherent
+                        inc = BFS.check_coherent(h, _drop_empty(m.subgraph(S)), universe)
+                        if inc:
+                            V(f"subgraph/{cname}/" + inc[0][0], f"public view {inc[0][0]} of subgraph({cname} {S}) disagrees with the "
+                              f"induced subgraph", inc[0][1], inp=str(S))
                     if type(h) is not type(g):
                         V(f"subgraph/{cname}/class", f"subgraph returned a {type(h).__name__}", inp=str(S))
         if norm(snap(g)) != base:
@@ -158,10 +173,45 @@ def run_item(item):
                         if d:
                             V("compose-cover/wrong:" + "+".join(d), f"compose([sub{S1}, sub{S2}]) differs from the labelled union in {d}",
                               {x: {"real": got.get(x), "model": exp.get(x)} for x in d}, inp=str(assign))
+                        elif container is list:
+                            inc = BFS.check_coherent(h, _drop_empty(RG.RefGraph.compose(m.kind, [m1, m2])), universe)
+                            if inc:
+                                V("compose-cover/" + inc[0][0], f"public view {inc[0][0]} of compose([sub{S1}, sub{S2}]) disagrees with "
+                                  f"the labelled union", inc[0][1], inp=str(assign))
                         if type(h) is not type(g):
                             V("compose-cover/class", f"compose returned a {type(h).__name__}", inp=str(assign))
                 except Exception as e:
                     V("compose-cover/raised:" + type(e).__name__, f"compose over the cover {S1},{S2} raised {e!r}", inp=str(assign))
+        # ---- compose across classes: pieces converted to every other class that can hold their content ---------------
+        for S1, S2 in ([(ids[: n // 2 + 1], ids[n // 2:]), (ids, ids[:1]), (ids[-1:], ids)] if n >= 2 else []):
+            for pk in (MG, SMG, CRG, SCRG):          # class of the pieces
+                for tk in (MG, SMG, CRG, SCRG):      # class of the result
+                    if pk == tk:
+                        continue
+                    m1, m2 = U.to_kind(m.subgraph(S1), pk), U.to_kind(m.subgraph(S2), pk)
+                    # labelled union in the most general class, then only what the target class can hold; bond attributes
+                    # (also a 'reaction' attribute) are plain attributes for the non-reaction classes and are kept
+                    full = RG.RefGraph.compose(SCRG, [U.to_kind(m1, SCRG), U.to_kind(m2, SCRG)])
+                    e = RG.RefGraph(tk)
+                    e.atoms, e.bonds = full.atoms, full.bonds
+                    if tk in RG.STEREO:
+                        e.astereo, e.bstereo = full.astereo, full.bstereo
+                    if tk == SCRG:
+                        e.achg, e.bchg = full.achg, full.bchg
+                    exp = _drop_empty(e).observe()
+                    try:
+                        h = U.real_cls(tk).compose([U.build(m1), U.build(m2)])
+                    except Exception as e:
+                        V(f"compose-mixed/{E.SHORT[pk]}->{E.SHORT[tk]}/raised:" + type(e).__name__, f"compose of {pk} pieces into {tk} raised {e!r}")
+                        continue
+                    out["evals"] += 1
+                    out["distinct"] += 1
+                    oc["compose-mixed"] = oc.get("compose-mixed", 0) + 1
+                    got = norm(snap(h), drop_empty_changes=True)
+                    d = diff(got, exp)
+                    if d or type(h) is not U.real_cls(tk):
+                        V(f"compose-mixed/{E.SHORT[pk]}->{E.SHORT[tk]}/wrong:" + "+".join(d), f"compose of {pk} pieces into {tk} differs from "
+                          f"the labelled union in {d}", {x: {"real": got.get(x), "model": exp.get(x)} for x in d})
         if not out["samples"]:
             out["samples"].append({"spec": U.describe(m), "subsets": 2 ** n, "covers": 3 ** n if n <= 5 else 0})
     return out
